@@ -94,9 +94,14 @@ META = {
             "(World) relates machine variable locations and specification store locations, so set! through aliases is covered. "
             "ASSUMED (Laws2): observation of values, pair/vector closure of the representation, global store, envPut on a value slot, "
             "every heap operation keeps compile-time constants intact (Ext2.datum), CLOSURE (closure_ok) and ENTER "
-            "(activation_ok) as build_closure_environment/build_lexical_environment, behaviour of primitives (call); all of Laws2 is "
-            "PROVED for the small bump-allocating heap of CompileCorrect2Toy.lean (Toy.laws; not yet for concreteOps, whose allocator "
-            "reuses addresses), every hypothesis discharged for ((lambda (x) (if x 1 2)) #t) (demo_closure_runs) and for the tail call "
+            "(activation_ok) as build_closure_environment/build_lexical_environment, behaviour of primitives (call). On the CONCRETE "
+            "heap model (concreteOps: the collector's heap with the real allocator — free list head first, growth by chunks, addresses "
+            "reused — and CLOSURE/ENTER as in run.rs) every law EXCEPT `call` is a THEOREM (laws2_concrete / concrete_laws2, "
+            "Lemmas/CompileCorrect2Concrete*.lean; invariant: CInv of Lemmas/ConcreteLaws.lean, free cells are Undefined, named global "
+            "slots exist), likewise ErrLaws2 except the failing-builtin part (concrete_errLaws2), and every hypothesis of the main "
+            "theorem is discharged on that heap for ((lambda (x) (if x 1 2)) #t) (demo_concrete_closure_runs: CLOSURE takes free "
+            "cells, ENTER grows the heap). All of Laws2 incl. call (vacuous: no primitive) is proved for the small bump-allocating "
+            "heap of CompileCorrect2Toy.lean (Toy.laws), every hypothesis discharged for ((lambda (x) (if x 1 2)) #t) (demo_closure_runs) and for the tail call "
             "((lambda (f) (f #t)) (lambda (x) (if x 1 2))) (demo_tailcall_runs) and for a captured variable "
             "((lambda (x) ((lambda (y) x) 2)) 1) (demo_capture_runs). The fragment predicate carries well-scopedness as "
             "computed facts about the compiler model (lambdaParts' environment map = formals ++ captured-from-enclosing-map; a name has "
@@ -115,7 +120,7 @@ META = {
             "(VARARG), internal definitions, duplicate parameters ((lambda (x x) x) 1 2): Spec.Eval 2, compiler model and real VM 1 — "
             "an R7RS error; duplicate_parameters_differ), derived forms via macros (T01.2), quasiquote, call/cc, "
             "eval/apply/map/for-each (re-dispatching builtins), GC interleaving. Open: rest parameters/internal "
-            "definitions, quasiquote (stage 3), Laws2 on the concrete heap, GC interleaving. The agreement of the REAL parse+expand+compile+run pipeline with Spec.Eval — "
+            "definitions, quasiquote (stage 3), the builtin laws (call / call_err) on the concrete heap, GC interleaving. The agreement of the REAL parse+expand+compile+run pipeline with Spec.Eval — "
             "i.e. the first sentence of the property — is carried ONLY by the differential correspondence (generated sessions, "
             "see coverage.streams: feature histogram, named combinations, failure classes), and the fresh-VM / independence "
             "clause on the implementation side by the two implementation-vs-implementation oracles; the theorems are about the "
@@ -218,6 +223,11 @@ THEOREMS = [
     "Marwood.Lemmas.CompileCorrect2.closureCall_correct2_err",
     "Marwood.Lemmas.CompileCorrect2.Toy.errLaws",
     "Marwood.Lemmas.CompileCorrect2.Toy.demo_closure_fails",
+    "Marwood.Proofs.C01.laws2_concrete",
+    "Marwood.Lemmas.CompileCorrect2.Conc.concrete_laws2",
+    "Marwood.Lemmas.CompileCorrect2.Conc.concrete_errLaws2",
+    "Marwood.Lemmas.CompileCorrect2.Conc.demo_concrete_closure_runs",
+    "Marwood.Vm.Concrete.cput_alloc",
     "Marwood.Proofs.C01.duplicate_parameters_differ",
     "Marwood.Proofs.C01.quoted_constant_mutation_spec",
     "Marwood.Spec.Eval.Prelude.every_macro_is_readable",
